@@ -499,8 +499,56 @@ def run(ctx) -> list[Inst]:
                     msg=(f"grammar rule '{rname}' can contain '{sym}' but {vname} never reads ctx.{sym}(): "
                          f"that part of the source does not reach the specification"),
                     file=rel, line=f.node.lineno, props=PROPS))
+    insts += _string_tokens(ctx, visitor, rel)
     insts += _classification(ctx, visitor, rel)
     insts += _dedupe(ctx, visitor, rel)
+    return insts
+
+
+def _string_tokens(ctx, visitor, rel):
+    """(i) the text of a STRING token reaches the specification with its quotes removed and nothing else done to it:
+    `ctx.STRING().getText().strip('"')`.  Any further many-to-one string operation on the way (strip() of white
+    space, case folding, slicing ...) changes define values / meta strings the source spells out."""
+    from ..codec import LOSSY_METHODS
+    insts = []
+    for m in visitor.methods.values():
+        for n in own_nodes(m.node):
+            if not (isinstance(n, ast.Call) and isinstance(n.func, ast.Attribute)):
+                continue
+            # method chain ending here: collect the attribute names down to the STRING() accessor
+            chain = []
+            cur = n
+            while isinstance(cur, ast.Call) and isinstance(cur.func, ast.Attribute):
+                chain.append((cur.func.attr, cur))
+                cur = cur.func.value
+            names = [c[0] for c in chain]
+            if 'STRING' not in names or 'getText' not in names:
+                continue
+            # only maximal chains
+            par_is_chain = False
+            for p in own_nodes(m.node):
+                if isinstance(p, ast.Attribute) and p.value is n:
+                    par_is_chain = True
+            if par_is_chain:
+                continue
+            after = names[:names.index('getText')]
+            bad = None
+            for nm, call in chain[:len(after)]:
+                if nm in LOSSY_METHODS and not (nm == 'strip' and call.args and isinstance(call.args[0], ast.Constant)
+                                                and call.args[0].value in ('"', "'", '"\'')):
+                    bad = (nm, call)
+                if nm in ('replace', 'translate', 'expandtabs', 'splitlines', 'split', 'join'):
+                    bad = (nm, call)
+            construct = f'(i) STRING token text keeps everything between the quotes: {stmt_text(n, 50)}'
+            if bad:
+                insts.append(Inst(
+                    RULE, m.short, construct, 'violation',
+                    msg=(f"'.{bad[0]}(...)' is applied to the text of a STRING token: define values and meta strings "
+                         f"that start / end with white space (or differ only in what {bad[0]} removes) no longer equal "
+                         f"the source text"),
+                    file=rel, line=n.lineno, props=PROPS))
+            else:
+                insts.append(Inst(RULE, m.short, construct, 'ok', file=rel, line=n.lineno, props=PROPS))
     return insts
 
 
